@@ -1,3 +1,4 @@
+pub mod c01;
 pub mod c05;
 pub mod c05e;
 pub mod c09;
@@ -8,7 +9,9 @@ pub mod c12;
 pub mod c13;
 pub mod c14;
 pub mod c14e;
+pub mod c15;
 pub mod c16;
+pub mod c19;
 pub mod c20;
 pub mod c20e;
 
@@ -24,13 +27,16 @@ pub fn level_of(prop: &str) -> &'static str {
 
 pub fn dispatch(prop: &str, ctx: &Ctx, rep: &mut Report) -> bool {
     match prop {
+        "C01" => c01::run(ctx, rep),
         "C05" => c05::run(ctx, rep),
         "C09" => c09::run(ctx, rep),
         "C10" => c10::run(ctx, rep),
         "C12" => c12::run(ctx, rep),
         "C13" => c13::run(ctx, rep),
         "C14" => c14::run(ctx, rep),
+        "C15" => c15::run(ctx, rep),
         "C16" => c16::run(ctx, rep),
+        "C19" => c19::run(ctx, rep),
         "C20" => c20::run(ctx, rep),
         _ => return false,
     }
